@@ -23,6 +23,7 @@ RULE = ('Hypothesis generates 1..10 fit results (1..6 fits each, best chi^2 incl
         'output files non-empty; distinct = distinct canonical JSON.')
 RULE += (' ' + 'List inputs may have their final flag set in place after n_data was read.')
 RULE += (' ' + 'A third of the inputs hold sources that share a name (some, all, or all unnamed): names are labels, every record counts.')
+RULE += (' ' + 'A quarter of the file inputs are handed over through a symbolic link in another directory.')
 ASSUMPTIONS = [
     'an output that should hold no record may be a zero-byte / unreadable file (nothing is claimed about it)',
     'automatic output names are only defined for a file-name input (documented ValueError otherwise)',
@@ -80,7 +81,7 @@ def cases(draw):
     return {'names': names, 'nfilt': nfilt, 'records': recs, 'criterion': crit, 'threshold': thr, 'input': form,
             'auto': draw(st.booleans()) if form == 'file' else False, 'earlier_thresholds': before,
             'naming': draw(st.sampled_from(['both', 'both', 'good_explicit', 'bad_explicit'])),
-            'late_flags': draw(st.booleans()), 'source_naming': naming}
+            'late_flags': draw(st.booleans()), 'source_naming': naming, 'via_link': draw(st.integers(0, 3)) == 0}
 
 
 def read_or_empty(path, what):
@@ -129,6 +130,16 @@ def run_case(case, ctx):
                 labels.add('threshold_equals_attained_value')
         inp = os.path.join(d, 'input.fitinfo')
         fg.write_fit_file(inp, infos)
+        if case.get('via_link') and case['input'] == 'file':
+            # the results are kept under a run name elsewhere and handed over under the name of a link in the working
+            # directory: automatic output names are formed from the name that was handed over
+            os.mkdir(os.path.join(d, 'archive'))
+            os.mkdir(os.path.join(d, 'work'))
+            real = os.path.join(d, 'archive', 'run_0042.fitinfo')
+            os.rename(inp, real)
+            inp = os.path.join(d, 'work', 'current.fitinfo')
+            os.symlink(real, inp)
+            labels.add('input_given_through_a_symbolic_link')
         naming = case.get('naming', 'both')
         if case['auto'] and naming == 'good_explicit':
             good, bad = os.path.join(d, 'well_fit'), inp + '_bad'
